@@ -172,8 +172,12 @@ impl ByronAddress {
         addr_bytes.finalize()
     }
     pub fn from_bytes(bytes: Vec<u8>) -> Result<ByronAddress, JsError> {
+        let len = bytes.len() as u64;
         let mut raw = Deserializer::from(std::io::Cursor::new(bytes));
         let extended_addr = ExtendedAddr::deserialize(&mut raw)?;
+        if raw.as_ref().position() < len {
+            return Err(JsError::from_str("Unexpected trailing data after the Byron address"));
+        }
         Ok(ByronAddress(extended_addr))
     }
     /// returns the byron protocol magic embedded in the address, or mainnet id if none is present
